@@ -479,6 +479,12 @@ type FunctionLiteral struct {
 }
 
 func (fl FunctionLiteral) lambdaPrint(out *PrintState) *PrintState {
+	// A lambda used as operand or callee (a == (x => x), (x => x)(1)) must keep its parentheses.
+	outerParen := out.AllParens || LAMBDA < out.ExpressionPrecedence
+	oldPrecedence := out.ExpressionPrecedence
+	if outerParen {
+		out.Print("(")
+	}
 	needParen := len(fl.Parameters) != 1
 	if needParen {
 		out.Print("(")
@@ -493,6 +499,10 @@ func (fl FunctionLiteral) lambdaPrint(out *PrintState) *PrintState {
 		out.Print(" => ")
 	}
 	fl.Body.PrettyPrint(out)
+	if outerParen {
+		out.Print(")")
+	}
+	out.ExpressionPrecedence = oldPrecedence
 	return out
 }
 
@@ -523,9 +533,10 @@ type CallExpression struct {
 }
 
 func (ce CallExpression) PrettyPrint(out *PrintState) *PrintState {
+	oldExpressionPrecedence := out.ExpressionPrecedence
+	out.ExpressionPrecedence = CALL // so a callee that is an operator expression or a lambda keeps its parentheses.
 	ce.Function.PrettyPrint(out)
 	out.Print("(")
-	oldExpressionPrecedence := out.ExpressionPrecedence
 	out.ExpressionPrecedence = LOWEST
 	out.ComaList(ce.Arguments)
 	out.ExpressionPrecedence = oldExpressionPrecedence
